@@ -386,6 +386,8 @@ class FnEdit:
         self.inline_lits = []
         self.loopstarts = {}
         self.desugar_try = False
+        self.dropmacro_exprs = []
+        self.guards_to_if = False
 
     def apply(self, src):
         sig, body, line = find_fn(src, self.owner, self.name)
@@ -486,6 +488,69 @@ class FnEdit:
             for m in ms:
                 reps.append((m.start(), m.end(), m.expand(tmpl)))
             log.append('rewrite-re %r => %r (x%d)' % (rx, tmpl, cnt))
+        if self.guards_to_if:
+            # Verus loses the resolution of `final(self)` across a match that has guards.  Each arm `PAT if COND => EXPR,`
+            # becomes `PAT => if COND { EXPR } else { DEFAULT },` where DEFAULT is the expression of the final `_` arm.
+            # That is the same program iff a value rejected by the guard cannot match any LATER arm except `_`; this is
+            # checked here syntactically (constructor or an enum-literal argument must differ) and refused otherwise.
+            mm = re.search(r'match\s+[^{]+\{', body)
+            if not mm or mm.start() not in set(code_positions(body)):
+                raise ExtractionError('%s: guards-to-if: no match expression' % self.name)
+            ob = mm.end() - 1
+            cb = match_close(body, ob)
+            inner = body[ob + 1:cb]
+            arms = []   # (start, end, pat, cond, expr) relative to body
+            pos = ob + 1
+            for ln in inner.split('\n'):
+                st = ln.strip()
+                if st and not st.startswith('//'):
+                    m2 = re.match(r'^(.*?)(?:\s+if\s+(.*?))?\s*=>\s*(.*),$', st)
+                    if not m2:
+                        raise ExtractionError('%s: guards-to-if: arm is not of the single-line form `PAT [if COND] => EXPR,`: %r' % (self.name, st[:60]))
+                    a0 = pos + (len(ln) - len(ln.lstrip()))
+                    arms.append((a0, a0 + len(st), m2.group(1).strip(), m2.group(2), m2.group(3).strip()))
+                pos += len(ln) + 1
+            if not arms or arms[-1][2] != '_' or arms[-1][3]:
+                raise ExtractionError('%s: guards-to-if: last arm is not an unguarded `_`' % self.name)
+            default = arms[-1][4]
+
+            def _split_pat(p):
+                m3 = re.match(r'^([\w:]+)\((.*)\)$', p)
+                if not m3:
+                    return p, []
+                return m3.group(1), [x.strip() for x in m3.group(2).split(',')]
+
+            def _disjoint(p, q):
+                for pa in p.split('|'):
+                    for qa in q.split('|'):
+                        c1, a1 = _split_pat(pa.strip())
+                        c2, a2 = _split_pat(qa.strip())
+                        if c1 != c2:
+                            continue
+                        if len(a1) == len(a2) and any('::' in x and '::' in y and x != y for x, y in zip(a1, a2)):
+                            continue
+                        return False
+                return True
+            n_g = 0
+            for k, (a0, a1, pat, cond, expr) in enumerate(arms):
+                if not cond:
+                    continue
+                for (_, _, pat2, _, _) in arms[k + 1:-1]:
+                    if not _disjoint(pat, pat2):
+                        raise ExtractionError('%s: guards-to-if: arm %r may fall through to the overlapping later arm %r' % (self.name, pat, pat2))
+                reps.append((a0, a1, '%s => if %s { %s } else { %s },' % (pat, cond, expr, default)))
+                n_g += 1
+            log.append('guards-to-if: %d guarded arms rewritten to `PAT => if COND { EXPR } else { %s }` (no later arm overlaps: checked)' % (n_g, default))
+        for mac in self.dropmacro_exprs:
+            # every invocation `mac(...)` (a logging macro: an expression of type ()) is replaced by `()`
+            occ = find_code(body, mac + '(')
+            for o in occ:
+                if o > 0 and (body[o - 1].isalnum() or body[o - 1] == '_'):
+                    continue
+                cp = match_close(body, o + len(mac), '(', ')')
+                reps.append((o, cp + 1, '()'))
+            extra.setdefault('dropped_macro_calls', []).append({'macro': mac, 'count': len(occ)})
+            log.append('drop %d invocation(s) of %s(..) (replaced by `()`)' % (len(occ), mac))
         if self.desugar_try:
             # `EXPR?;` (statement-final try) => the language-defined desugaring with an explicit From::from call.
             # Verus leaves the converted error of `?` unconstrained when the error types differ; the explicit call is
@@ -662,6 +727,20 @@ def expand_template(tmpl_text, read_repo, read_include=None):
             f, name = parts[1], parts[2]
             text, line = find_type(read_repo(f), name)
             if len(parts) > 3:
+                md = re.search(r'derived ' + _Q, parts[3])
+                if md:
+                    # the template re-derives these traits (+ Structural) on the extracted type: make sure the real type
+                    # derives them too, i.e. that `==` on it really is structural equality
+                    src_lines = read_repo(f).split('\n')
+                    k = line - 2
+                    attrs = ''
+                    while k >= 0 and (src_lines[k].strip().startswith('#[') or src_lines[k].strip().startswith('///') or not src_lines[k].strip()):
+                        attrs += src_lines[k]
+                        k -= 1
+                    for tr in _unq(md.group(1)).split(','):
+                        if not re.search(r'derive\([^)]*\b%s\b' % re.escape(tr.strip()), attrs):
+                            raise ExtractionError('type %s does not derive %s in %s' % (name, tr.strip(), f))
+                    parts[3] = parts[3].replace(md.group(0), '')
                 for m in re.finditer(_Q + r' => ' + _Q, parts[3]):
                     old, new = _unq(m.group(1)), _unq(m.group(2))
                     if text.count(old) != 1:
@@ -747,6 +826,13 @@ def expand_template(tmpl_text, read_repo, read_include=None):
                         if not m:
                             raise ExtractionError('bad directive: ' + s2)
                         ed.rewrites_re.append((_unq(m.group(1)), _unq(m.group(2)), int(m.group(3) or 1)))
+                        cur = None
+                    elif d.startswith('dropmacro-expr '):
+                        m = re.match(r'dropmacro-expr ' + _Q + r'$', d)
+                        ed.dropmacro_exprs.append(_unq(m.group(1)))
+                        cur = None
+                    elif d == 'guards-to-if':
+                        ed.guards_to_if = True
                         cur = None
                     elif d == 'desugar-try':
                         ed.desugar_try = True
